@@ -105,6 +105,22 @@ func expandAll(exprs ...string) []string {
 	return out
 }
 
+const freeClass = "{[0-9a-z.\\-+_~]}"
+
+// freeRunTemplate: a numeric head the ecosystem accepts followed by two free characters ("" for the
+// ecosystems whose 's' set already has such a run: debian, rpm, alpm).
+func freeRunTemplate(eco string) string {
+	switch eco {
+	case "debian", "rpm", "alpm":
+		return ""
+	case "semver", "npm", "cargo", "hex", "nuget", "mattermost", "github", "apache":
+		return "{d}.{d}.{d}" + freeClass + freeClass
+	case "golang":
+		return "v{d}.{d}.{d}" + freeClass + freeClass
+	}
+	return "{d}.{d}" + freeClass + freeClass
+}
+
 // versionTemplates returns the version grammar templates of an ecosystem for a tier.
 // size: "s" (≈6-10 templates: triples), "m" (≈15-40: pairs), "l" (thorough).
 func versionTemplates(eco, size string) []string {
@@ -148,7 +164,7 @@ func versionTemplates(eco, size string) []string {
 		m = expandAll("(|{d}:){d}(.{d}|{[a-z~^._+]}{d}|.{d}{[a-z~^._+]}|.{d}.{d}|{[a-z~^._]}{[a-z~^._]}{d})(|-{d}|-{d}.{l}{l}{d})", "{d}{d}.{d}{d}", "{d}.{d}~{l}{l}{d}", "{d}.{d}^{l}{l}{l}{d}")
 		l = expandAll("(|{d}:|{d}{d}:){d}(|.{d}|{[A-Za-z~^._+]}{d}|.{d}{[A-Za-z~^._+]}|.{d}.{d}|{[A-Za-z~^._+]}{[A-Za-z~^._+]}{d}|.{d}{[a-z~^._]}{[a-z~^._]}|.{d}{d}{d})(|-{d}|-{d}.{l}{l}{d}|-{[a-z~^._]}{d})", "0{d}.0{d}", "{d}{d}{d}{d}{d}{d}{d}{d}{d}{d}{d}{d}{d}{d}{d}{d}{d}{d}{d}{d}{d}", "{d}{d}{d}{d}{d}{d}{d}{d}{d}{d}{d}{d}{d}{d}{d}{d}{d}{d}{d}{d}", "{d}.{d}{a}{d}", "{d}.{d}.{a}{a}-{d}")
 	case "alpm":
-		s = expandAll("{d}.{d}", "{d}.{d}-{d}", "{d}:{d}.{d}-{d}", "{d}.{d}{l}", "{d}.{d}{l}{l}{d}", "{d}.{d}.{l}{l}", "{d}{d}.{d}", "{d}.{d}.{d}-{d}")
+		s = expandAll("{d}.{d}", "{d}.{d}-{d}", "{d}:{d}.{d}-{d}", "{d}.{d}{l}", "{d}.{d}{l}{l}{d}", "{d}.{d}.{l}{l}", "{d}{d}.{d}", "{d}.{d}.{d}-{d}", "{d}.{[a-z0-9._]}{[a-z0-9._]}")
 		m = expandAll("(|{d}:){d}(.{d}|{[a-z._+]}{d}|.{d}{[a-z._+]}|.{d}.{d}|.{d}{l}{l}{d}|.{d}{l}{l}{l})(|-{d}|-{d}.{d})", "{d}{d}.{d}{d}")
 		l = expandAll("(|{d}:|{d}{d}:){d}(|.{d}|{[A-Za-z._+]}{d}|.{d}{[A-Za-z._+]}|.{d}.{d}|.{d}{l}{l}{d}|.{d}{l}{l}{l}|.{d}{l}{l}{l}{l}{d}|.{d}.{l}{l}{d})(|-{d}|-{d}.{d}|-{d}{d})", "0{d}.0{d}", "{d}{d}{d}{d}{d}{d}{d}{d}{d}{d}{d}{d}{d}{d}{d}{d}{d}{d}{d}{d}{d}", "{d}{d}{d}{d}{d}{d}{d}{d}{d}{d}{d}{d}{d}{d}{d}{d}{d}{d}{d}{d}")
 	case "maven":
@@ -195,6 +211,13 @@ func versionTemplates(eco, size string) []string {
 		s = expandAll("{d}.{d}", "{d}.{d}.{d}", "{d}.{d}{l}{d}", "{d}.{d}.post{d}", "{d}.{d}.dev{d}", "{d}!{d}.{d}", "{d}.{d}rc{d}", "{d}.{d}+{n}")
 		m = expandAll("(|{d}!){d}(|.{d}|.{d}.{d})(|a{d}|b{d}|rc{d}|.rc{d}|alpha{d}|beta{d}|c{d})(|.post{d}|post{d}|.rev{d}|.r{d})(|.dev{d}|dev{d})(|+{n})", "{d}{d}.{d}{d}")
 		l = expandAll("(|{d}!){d}(|.{d}|.{d}.{d}|.{d}.{d}.{d})(|a{d}|b{d}|rc{d}|.rc{d}|alpha{d}|beta{d}|c{d}|.a{d}{d})(|.post{d}|post{d}|.rev{d}|.r{d})(|.dev{d}|dev{d})(|+{n}|+{n}.{n}|+{n}-{d})", "{d}{d}.{d}{d}", "0{d}.0{d}", "{d}.0.0")
+	}
+	// one template with a short free run over the punctuation-and-alphanumeric alphabet after a
+	// numeric head: the shapes nobody thought of (doubled separators, letter/digit/separator mixes)
+	if fr := freeRunTemplate(eco); fr != "" {
+		s = append(s, fr)
+		m = append(m, fr)
+		l = append(l, fr, strings.Replace(fr, freeClass, freeClass+freeClass, 1))
 	}
 	var out []string
 	switch size {
